@@ -57,6 +57,12 @@ def srtRep (s : Subs) : Bool :=
       (SRT.kvGet li.attrs "SRTPosition").isNone &&
       (match SRT.kvGet li.attrs "SRTColor" with | some c => c ≠ [] && !(c.any fun ch => ch = '"' || ch = '&' || ch = '>') | none => true)
 
+def srtHugeField (text : Str) : Bool :=
+  let rec longDigits : List Char → Nat → Bool
+    | [], n => decide (19 ≤ n)
+    | c :: rest, n => if c.isDigit then longDigits rest (n + 1) else decide (19 ≤ n) || longDigits rest 0
+  (Spec.SRT.splitLines text []).any fun l => contains "-->".toList l && longDigits l 0
+
 def handleSRT (op : String) (args impl : List String) : Verdict :=
   match op, args with
   | "srt.read", [doc] =>
@@ -71,6 +77,9 @@ def handleSRT (op : String) (args impl : List String) : Verdict :=
           match decodeLine doc with
           | none => true
           | some text =>
+            -- a number field beyond int64 on a timing line: the decoder counts in unbounded arithmetic,
+            -- strconv.Atoi does not (`C01read.inRange_needed`); outside the property's range, not judged
+            if srtHugeField text then true else
             match Spec.SRT.decode text with
             | none => true
             | some cues =>
